@@ -221,6 +221,8 @@ where
     size: u64,
     replaced_hash: Option<BlobHash>,
     committed: bool,
+    // set once `apply_put_op` has released this intent's per-hash count
+    released: bool,
 }
 
 #[derive(Debug, Clone, Copy)]
@@ -238,7 +240,19 @@ where
         mut self,
         delete_fn: &crate::types::DeleteBlobCallFn,
     ) -> Result<(), IndexError> {
-        self.index.apply_put_op(self.key.clone(), self.hash, self.size, delete_fn)?;
+        let mut released = false;
+        let result = self.index.apply_put_op(
+            self.key.clone(),
+            self.hash,
+            self.size,
+            delete_fn,
+            &mut released,
+        );
+        // The apply can still fail after it has released the intent (unlink of the replaced
+        // blob, rollover checkpoint); the drop below must then not release it a second time,
+        // which would strip the protection of another in-flight commit of the same content.
+        self.released = released;
+        result?;
         self.committed = true;
         Ok(())
     }
@@ -258,7 +272,9 @@ where
                 &self.index.pending_intents,
             );
             let mut intents = self.index.pending_intents.lock();
-            intents.release(&self.hash);
+            if !self.released {
+                intents.release(&self.hash);
+            }
 
             if let Some(current_hash) = intents.by_key.get(&self.key)
                 && *current_hash == self.hash
@@ -357,15 +373,18 @@ where
             size: meta.blob_size,
             replaced_hash,
             committed: false,
+            released: false,
         })
     }
 
+    // `released` is set as soon as the per-hash count of this commit's intent has been given back.
     pub fn apply_put_op(
         &self,
         key: K,
         hash: BlobHash,
         size: u64,
         delete_fn: &crate::types::DeleteBlobCallFn,
+        released: &mut bool,
     ) -> Result<(), IndexError> {
         let logical_op = WalOp::Put { key: key.clone(), hash, size };
         #[cfg(feature = "verif-hooks")]
@@ -394,6 +413,7 @@ where
             intents.by_key.remove(&key);
         }
         intents.release(&hash);
+        *released = true;
 
         // Filter out any unreferenced hashes that are still referenced by other intents
         unreferenced_from_op.retain(|hash| !intents.protects(hash));
